@@ -90,8 +90,13 @@ impl<'l, F: AsFd> Async<'l, F> {
 
         // SAFETY: We are sure to deregister on drop.
         if let Err(err) = unsafe { inner.register(&dispatcher) } {
-            // leave no trace of a failed adaptation: free the slot, restore the blocking mode
-            inner.kill(&dispatcher);
+            // leave no trace of a failed adaptation: free the slot, restore the blocking mode. The poller is
+            // left alone: this adapter never registered the fd, and the registration that made this one fail
+            // may belong to another adapter or source of the same fd.
+            let token = dispatcher.borrow().token.expect("No token for IO dispatcher");
+            if let Ok(slot) = inner.sources.borrow_mut().get_mut(token.inner) {
+                slot.source = None;
+            }
             let _ = set_nonblocking(
                 #[cfg(unix)]
                 fd.as_fd(),
